@@ -11,8 +11,12 @@ use std::path::PathBuf;
 
 pub const VERIF_DIR: &str = "/verif";
 /// where evidence, replays and shard scratch files are written (overridable for sensitivity runs on modified trees)
+/// where KNOWN_FINDINGS.txt and regress/ are read from (the directory of the `check` script)
+pub fn home_dir() -> String {
+    std::env::var("VERIF_HOME").unwrap_or_else(|_| VERIF_DIR.to_string())
+}
 pub fn out_dir() -> String {
-    std::env::var("VERIF_OUT").unwrap_or_else(|_| VERIF_DIR.to_string())
+    std::env::var("VERIF_OUT").unwrap_or_else(|_| home_dir())
 }
 
 #[derive(Clone, Copy, Debug, PartialEq, Eq)]
@@ -258,7 +262,7 @@ pub struct KnownFindings {
 impl KnownFindings {
     pub fn load() -> Self {
         let mut k = KnownFindings::default();
-        let p = format!("{VERIF_DIR}/KNOWN_FINDINGS.txt");
+        let p = format!("{}/KNOWN_FINDINGS.txt", home_dir());
         if let Ok(s) = std::fs::read_to_string(p) {
             for line in s.lines() {
                 let line = line.trim();
